@@ -85,6 +85,12 @@ const (
 //	'I' I<n>{…}  the same with the nested buffer copied from the next n bits of the input, which
 //	             become a raw leaf (like FieldFormatReaderLen)
 //	'R' R<n>     FieldRootBitBuf: nested buffer of n bits as one root leaf (never gap filled)
+//	'N' N<n>{…}  FieldStructRootBitBufFn, 'M' M<n>{…} FieldArrayRootBitBufFn: nested buffer of n bits
+//	             decoded by a CALLBACK of the same decode (never gap filled; stays in the partial
+//	             tree when the callback fails)
+//	'!' !        d.Fatalf: a decode error at this point   'd' d<b>  raw leaf named "dup" (a second
+//	             one in the same struct raises the duplicate-name decode error)
+//	             (reading past the end: +<huge>)
 //
 // Positions inside L/F/T are relative to the sub-decode's own buffer.
 type synthItem struct {
@@ -93,45 +99,112 @@ type synthItem struct {
 	Sub        []synthItem
 }
 
-type synthIn struct{ Items []synthItem }
+// synthIn: the program of one (sub-)decode plus where it runs: Buf = id of the buffer it reads,
+// Off = offset of this decoder's position 0 in that buffer.
+type synthIn struct {
+	Items []synthItem
+	Buf   int
+	Off   int64
+}
 
-var synthGroup *decode.Group
+var synthGroup, synthProbeGroup *decode.Group
 
-func synthDecode(d *decode.D, items []synthItem) {
-	for i, it := range items {
+// ground truth, written by the synthetic decoder itself: which leaf was decoded from which
+// buffer at which range. A leaf is logged after the Field call returned; the leaves of a
+// decode()-based sub-decode that fails are rolled back (fq drops such a sub-tree), the leaves
+// of callback based compounds (struct, array, nested root callbacks) stay, as they stay in
+// the partial tree of a failed decode.
+type logLeaf struct {
+	buf        int
+	start, len int64
+}
+
+var synthLog struct {
+	leaves []logLeaf
+	nbuf   int
+}
+
+func logLeafAt(in synthIn, pos, n int64) {
+	synthLog.leaves = append(synthLog.leaves, logLeaf{in.Buf, in.Off + pos, n})
+}
+
+func constBits(n int64, salt uint64) bitio.ReaderAtSeeker {
+	return bitio.NewBitReader(hlib.NewRand(uint64(n)+salt).Bytes(int((n+7)/8)), n)
+}
+
+func synthDecode(d *decode.D, in synthIn) {
+	for i, it := range in.Items {
 		name := "f" + strconv.Itoa(i)
+		sub := func(buf int, off int64) synthIn { return synthIn{Items: it.Sub, Buf: buf, Off: off} }
+		newBuf := func() (int, string) {
+			synthLog.nbuf++
+			return synthLog.nbuf, fmt.Sprintf("f%d_b%d", i, synthLog.nbuf)
+		}
+		mark := len(synthLog.leaves)
+		// a decode()-based sub-decode that failed: fq keeps nothing of it
+		failed := func(err error, op string) {
+			synthLog.leaves = synthLog.leaves[:mark]
+			if it.Kind != 'T' {
+				d.IOPanic(err, name, op)
+			}
+		}
 		switch it.Kind {
-		case 'r':
-			d.SeekAbs(it.Start)
+		case 'r', '+', 'd':
+			if it.Kind == 'r' {
+				d.SeekAbs(it.Start)
+			}
+			if it.Kind == 'd' {
+				name = "dup" // twice in one struct: `"dup" already exist in struct`
+			}
+			p := d.Pos()
 			d.FieldRawLen(name, it.Len)
-		case '+':
-			d.FieldRawLen(name, it.Len)
+			logLeafAt(in, p, it.Len)
 		case '>':
 			d.SeekRel(it.Len)
 		case '^':
 			d.SeekAbs(it.Start)
 		case 'z':
+			p := d.Pos()
 			d.FieldValueUint(name, uint64(i))
+			logLeafAt(in, p, 0)
+		case '!':
+			d.Fatalf("synthetic decode error")
 		case 'L':
 			d.SeekAbs(it.Start)
-			d.FieldFormatLen(name, it.Len, synthGroup, synthIn{Items: it.Sub})
-		case 'F':
-			d.FieldFormat(name, synthGroup, synthIn{Items: it.Sub})
-		case 'T':
-			_, _, _ = d.TryFieldFormat(name, synthGroup, synthIn{Items: it.Sub})
+			if dv, _, err := d.TryFieldFormatLen(name, it.Len, synthGroup, sub(in.Buf, in.Off+d.Pos())); dv == nil {
+				failed(err, "FieldFormatLen")
+			}
+		case 'F', 'T':
+			if dv, _, err := d.TryFieldFormat(name, synthGroup, sub(in.Buf, in.Off+d.Pos())); dv == nil {
+				failed(err, "FieldFormat")
+			}
 		case 'B':
-			br := bitio.NewBitReader(hlib.NewRand(uint64(it.Len)+99).Bytes(int((it.Len+7)/8)), it.Len)
-			d.FieldFormatBitBuf(name, br, synthGroup, synthIn{Items: it.Sub})
+			id, bname := newBuf()
+			if dv, _, err := d.TryFieldFormatBitBuf(bname, constBits(it.Len, 99), synthGroup, sub(id, 0)); dv == nil {
+				failed(err, "FieldFormatBitBuf")
+			}
 		case 'I':
+			p := d.Pos()
 			raw := d.FieldRawLen(name+"raw", it.Len)
+			logLeafAt(in, p, it.Len)
+			mark = len(synthLog.leaves)
+			id, bname := newBuf()
 			br := bitio.NewBitReader(d.ReadAllBits(raw), it.Len)
-			d.FieldFormatBitBuf(name, br, synthGroup, synthIn{Items: it.Sub})
+			if dv, _, err := d.TryFieldFormatBitBuf(bname, br, synthGroup, sub(id, 0)); dv == nil {
+				failed(err, "FieldFormatBitBuf")
+			}
 		case 'R':
-			d.FieldRootBitBuf(name, bitio.NewBitReader(hlib.NewRand(uint64(it.Len)+5).Bytes(int((it.Len+7)/8)), it.Len))
+			d.FieldRootBitBuf(name, constBits(it.Len, 5))
+		case 'N':
+			id, bname := newBuf()
+			d.FieldStructRootBitBufFn(bname, constBits(it.Len, 17), func(d *decode.D) { synthDecode(d, sub(id, 0)) })
+		case 'M':
+			id, bname := newBuf()
+			d.FieldArrayRootBitBufFn(bname, constBits(it.Len, 23), func(d *decode.D) { synthDecode(d, sub(id, 0)) })
 		case 'S':
-			d.FieldStruct(name, func(d *decode.D) { synthDecode(d, it.Sub) })
+			d.FieldStruct(name, func(d *decode.D) { synthDecode(d, sub(in.Buf, in.Off)) })
 		case 'A':
-			d.FieldArray(name, func(d *decode.D) { synthDecode(d, it.Sub) })
+			d.FieldArray(name, func(d *decode.D) { synthDecode(d, sub(in.Buf, in.Off)) })
 		}
 	}
 }
@@ -142,9 +215,13 @@ func init() {
 	f.DecodeFn = func(d *decode.D) any {
 		var in synthIn
 		d.ArgAs(&in)
-		synthDecode(d, in.Items)
+		synthDecode(d, in)
 		return nil
 	}
+	// a group of two formats (like probing): a failed decode is discarded, not kept as partial tree
+	never := &decode.Format{Name: "verif_c04_never", RootArray: true, RootName: "never",
+		DecodeFn: func(d *decode.D) any { d.Fatalf("never"); return nil }}
+	synthProbeGroup = &decode.Group{Name: "verif_c04_probe", Formats: []*decode.Format{f, never}}
 }
 
 func parseNum(s string) (int64, string, bool) {
@@ -190,7 +267,14 @@ func parseSynth(s string) ([]synthItem, string, error) {
 			}
 		case c == 'z':
 			it.Kind, s = c, s[1:]
-		case c == 'B' || c == 'I':
+		case c == '!':
+			it.Kind, s = c, s[1:]
+		case c == 'd':
+			it.Kind = c
+			if it.Len, s, ok = parseNum(s[1:]); !ok {
+				return bad()
+			}
+		case c == 'B' || c == 'I' || c == 'N' || c == 'M':
 			it.Kind = c
 			if it.Len, s, ok = parseNum(s[1:]); !ok {
 				return bad()
@@ -404,6 +488,7 @@ func runJob(j job, e *emitter) {
 	var input []byte
 	var inArg any
 	group := synthGroup
+	synthLog.leaves, synthLog.nbuf = nil, 0
 	dr := ranges.Range{}
 	if j.path == "synth" {
 		ps := strings.SplitN(j.variant, ";", 2)
@@ -420,6 +505,9 @@ func runJob(j job, e *emitter) {
 		// content: a fixed pseudo random pattern so that gap content is distinguishable
 		input = hlib.NewRand(uint64(nbits)*2654435761 + 7).Bytes(int((nbits + 7) / 8))
 		inArg = synthIn{Items: items}
+		if j.format == "verif_c04_probe" {
+			group = synthProbeGroup
+		}
 		if nbits%8 != 0 || nbits == 0 {
 			dr = ranges.Range{Start: 0, Len: nbits}
 		}
@@ -561,6 +649,88 @@ func runJob(j job, e *emitter) {
 		e.Stat("top_level_scalar_roots", 1)
 	}
 	find(dv, 0)
+
+	if j.path == "synth" {
+		// the leaves fq accounts to each buffer against the leaves the decoder really decoded from it
+		bufVals := map[int]*decode.Value{0: dv}
+		var walkAll func(v *decode.Value)
+		walkAll = func(v *decode.Value) {
+			if i := strings.LastIndex(v.Name, "_b"); i >= 0 {
+				if id, err := strconv.Atoi(v.Name[i+2:]); err == nil {
+					bufVals[id] = v
+				}
+			}
+			if c, ok := v.V.(*decode.Compound); ok {
+				for _, ch := range c.Children {
+					walkAll(ch)
+				}
+			}
+		}
+		walkAll(dv)
+		ids := map[int]bool{}
+		for id := range bufVals {
+			ids[id] = true
+		}
+		for _, l := range synthLog.leaves {
+			ids[l.buf] = true
+		}
+		var idl []int
+		for id := range ids {
+			idl = append(idl, id)
+		}
+		sort.Ints(idl)
+		sortRs := func(rs []ranges.Range) {
+			sort.Slice(rs, func(a, b int) bool {
+				if rs[a].Start != rs[b].Start {
+					return rs[a].Start < rs[b].Start
+				}
+				return rs[a].Len < rs[b].Len
+			})
+		}
+		for _, id := range idl {
+			var exp, obs []ranges.Range
+			for _, l := range synthLog.leaves {
+				if l.buf == id {
+					exp = append(exp, ranges.Range{Start: l.start, Len: l.len})
+				}
+			}
+			b := int64(0)
+			if v, ok := bufVals[id]; ok {
+				obs, _ = collectAll(v)
+				if id == 0 {
+					b = base
+				}
+			}
+			sortRs(exp)
+			sortRs(obs)
+			op := fmt.Sprintf("bufleaves @%s#b%d", j, id)
+			if x := fmtRanges(exp, 0); x != "-" {
+				op += " " + x
+			}
+			e.Case(op, fmtRanges(obs, b))
+			e.Stat("synth_buffers_leafset_checked", 1)
+			// the C04 statement on the decoder's own account of the buffer: the leaves really
+			// decoded from it and the gap fields fq attached in it leave no bit of it out
+			if v, ok := bufVals[id]; ok {
+				if _, isC := v.V.(*decode.Compound); isC && (id == 0 || (v.IsRoot && v.Format != nil)) {
+					total := totalLen
+					if id != 0 {
+						l, err := bitLen(v.RootReader)
+						if err != nil {
+							continue
+						}
+						total = l
+					}
+					_, ag := collectAll(v)
+					cop := fmt.Sprintf("coverall 0:%d @%s#t%d", total, j, id)
+					if x := fmtRanges(exp, 0); x != "-" {
+						cop += " " + x
+					}
+					e.Case(cop, fmtRanges(ag, b))
+				}
+			}
+		}
+	}
 
 	for si, s := range sites {
 		fields, gapVals := collect(s.v)
@@ -1058,8 +1228,12 @@ func fmtSynth(items []synthItem) string {
 			s = fmt.Sprintf("^%d", it.Start)
 		case 'z':
 			s = "z"
-		case 'B', 'I':
+		case 'B', 'I', 'N', 'M':
 			s = fmt.Sprintf("%c%d{%s}", it.Kind, it.Len, fmtSynth(it.Sub))
+		case '!':
+			s = "!"
+		case 'd':
+			s = fmt.Sprintf("d%d", it.Len)
 		case 'R':
 			s = fmt.Sprintf("R%d", it.Len)
 		default:
@@ -1123,9 +1297,13 @@ func randScript(r *hlib.Rand, depth int, pos0 int64) (items []synthItem, pos, ma
 			if r.Intn(4) != 0 {
 				nb += int64(r.Range(1, 24))
 			}
-			switch r.Intn(5) {
+			switch r.Intn(7) {
 			case 0:
 				items = append(items, synthItem{Kind: 'R', Len: nb})
+			case 5:
+				items = append(items, synthItem{Kind: 'N', Len: nb, Sub: sub})
+			case 6:
+				items = append(items, synthItem{Kind: 'M', Len: nb, Sub: sub})
 			case 1, 2:
 				items = append(items, synthItem{Kind: 'I', Len: nb, Sub: sub})
 				pos += nb
@@ -1186,6 +1364,53 @@ func randScript(r *hlib.Rand, depth int, pos0 int64) (items []synthItem, pos, ma
 	return items, pos, maxStop
 }
 
+// countSlots / insertAt: every position of a tree program (before each step and at the end of
+// each step list, at every nesting level) is a slot where a failing step can be put
+func countSlots(items []synthItem) int {
+	n := len(items) + 1
+	for _, it := range items {
+		if it.Sub != nil || strings.IndexByte("LFTBINMSA", it.Kind) >= 0 {
+			n += countSlots(it.Sub)
+		}
+	}
+	return n
+}
+
+func insertAt(items []synthItem, slot int, ins []synthItem) ([]synthItem, int) {
+	var out []synthItem
+	for i := 0; i <= len(items); i++ {
+		if slot == 0 {
+			out = append(out, ins...)
+		}
+		slot--
+		if i == len(items) {
+			break
+		}
+		it := items[i]
+		if it.Sub != nil || strings.IndexByte("LFTBINMSA", it.Kind) >= 0 {
+			it.Sub, slot = insertAt(it.Sub, slot, ins)
+		}
+		out = append(out, it)
+	}
+	return out, slot
+}
+
+// injectFailure puts a decode error (Fatalf, read past the end, duplicate struct field name)
+// at a random slot of the program — also inside nested buffers and nested-root callbacks
+func injectFailure(r *hlib.Rand, items []synthItem) []synthItem {
+	var ins []synthItem
+	switch r.Intn(4) {
+	case 0:
+		ins = []synthItem{{Kind: '+', Len: 1 << 20}}
+	case 1:
+		ins = []synthItem{{Kind: 'd', Len: 4}, {Kind: 'd', Len: 4}}
+	default:
+		ins = []synthItem{{Kind: '!'}}
+	}
+	out, _ := insertAt(items, r.Intn(countSlots(items)), ins)
+	return out
+}
+
 func synthJobs(r *hlib.Rand, n int) []job {
 	var jobs []job
 	for _, c := range []string{
@@ -1198,6 +1423,11 @@ func synthJobs(r *hlib.Rand, n int) []job {
 		// that are themselves decoded without gap filling (F/T) — the nested buffer is its own root
 		"16;+8,B24{+8},+8", "24;+8,F{+8,B24{+8,>8}},+8", "32;+8,T{+4,I12{+4,>4,+2},+4},+4", "32;+8,S{F{F{+8,B40{+8,>8,+8}}}},+8",
 		"16;+8,F{R16,+8}", "24;F{B16{F{B16{+8}}}},+24",
+		// a decode error INSIDE a nested buffer after >= 1 field: nested-root callbacks keep their
+		// partial sub-tree as a buffer of its own; decode()-based nested buffers are dropped
+		"40;+8,N32{+8,+8,!},+8", "40;+8,M32{+8,>8,+8,!},+8", "40;+8,N16{+8,+99},+8", "40;+8,N32{d8,d8},+8",
+		"48;+8,F{+8,N64{+8,8:16{+4},!}},+8", "40;+8,N64{+40,+8,!},+8", "40;+8,B32{+8,!},+8", "40;+8,T{+8,I16{+8,!}},+8",
+		"40;+8,S{+8,A{+8,!}},+8", "40;+8,S{d8,+4,d8},+8", "24;+8,M16{N16{+8,!}},+8",
 		// hole, then a zero-length value where the next field starts, last field ends the buffer
 		"40;+16,>8,z,+16", "64;+16,S{^24,z,z,+8},+32", "48;+8,F{+8,>8,z,+8},z,+16",
 	} {
@@ -1221,7 +1451,14 @@ func synthJobs(r *hlib.Rand, n int) []job {
 		case 1:
 			total = int64(r.Intn(int(maxStop) + 1)) // too short: failed decode, partial tree
 		}
-		jobs = append(jobs, job{path: "synth", format: "verif_c04",
+		format := "verif_c04"
+		if r.Intn(2) == 0 {
+			items = injectFailure(r, items)
+			if r.Intn(8) == 0 {
+				format = "verif_c04_probe" // group of two formats: the failed decode is discarded
+			}
+		}
+		jobs = append(jobs, job{path: "synth", format: format,
 			variant: fmt.Sprintf("%d;%s", total, fmtSynth(items))})
 	}
 	return jobs
